@@ -15,6 +15,7 @@ def main():
     tmo = 3000
     only = None
     genonly = False
+    nosafe = False
     names = []
     while args:
         a = args.pop(0)
@@ -22,6 +23,8 @@ def main():
             tmo = int(args.pop(0))
         elif a == '--only':
             only = args.pop(0)
+        elif a == '--nosafe':
+            nosafe = True
         elif a == '--gen':
             genonly = True
         else:
@@ -38,7 +41,7 @@ def main():
             print('no such function', name)
             continue
         t0 = time.time()
-        obls = ex.verify(fn, safety_props=('C12',))
+        obls = ex.verify(fn, safety_props=('C12',), want_safety=not nosafe)
         print('%s: %d obligations, %d paths, gen %.2fs' % (name, len(obls), ex.npaths, time.time() - t0), flush=True)
         if genonly:
             continue
